@@ -116,6 +116,19 @@ def typesFamily (fam : String) : Option (Parser String) :=
   | "addr_solution" => some do
     let s ← pSolution; done
     pure (hexOfBytes (solutionAddr Sha256.sha256 s) ++ " " ++ hexOfBytes (pcSolution s))
+  | "addr_raw" => some do
+    let kind ← tok
+    let addrs ← listOf bytes
+    match kind with
+    | "contract" => do
+      let salt ← bytes; done
+      let h := hexOfBytes (Sha256.sha256 (contractPreimage addrs salt))
+      pure s!"{h} {h}"
+    | "set" => do
+      done
+      let h := hexOfBytes (Sha256.sha256 (setPreimage addrs))
+      pure s!"{h} {h}"
+    | _ => failure
   | "conv" => some do
     let kind ← tok
     match kind with
